@@ -158,7 +158,7 @@ class MultiCtl(BaseMultiCtl, Module):
                     self.value,
                     self.curve.values,
                 )
-                final_value = converted + vt.min
+                final_value = max(vt.min, min(vt.max, converted + vt.min))
                 setattr(mod, ctl.name, final_value)
                 # TODO: apply out_offset
                 # TODO: what should we do if it's not a range?
